@@ -81,7 +81,7 @@ Record case := mk_case {
   c_ref : option json;            (* the harness' reference answer *)
   c_all_federated : bool;         (* every object type of this federation is registered with FetchObjectFromKeys *)
   c_in_scope : bool               (* the harness' reading of the premises of Props/C06.federation_transparent:
-                                     all objects federated, no directive on a field selection, every union selection
+                                     all objects federated, every union selection
                                      of the gateway's normalised query covers every member, the gateway answered *)
 }.
 
